@@ -1,6 +1,6 @@
 ---- MODULE MC_t_hist ----
 EXTENDS MCOFWire
-TheCases == UNION {Histories(k, b, NwStepsT("nw_src") \cup NwStepsT("nw_dst") \cup FieldStepsT, 2, "pre") : k \in {"match", "flow_mod", "srep_flow"}, b \in {ExactTCP, IPOnly, ARP}} \cup Histories("match", ExactTCP, NwSteps("nw_src") \cup NwSteps("nw_dst"), 3, "pre") \cup UNION {PrePost(k, ExactTCP, NwStepsT("nw_src") \cup NwStepsT("nw_dst") \cup FieldStepsT) : k \in DOMAIN MatchPos}
+TheCases == UNION {Histories("match", b, NwStepsT("nw_src") \cup NwStepsT("nw_dst") \cup FieldSteps, 2, "pre") : b \in {ExactTCP, IPOnly}} \cup Histories("match", ExactTCP, NwSteps("nw_src") \cup NwSteps("nw_dst"), 3, "pre") \cup Histories("match", ARP, NwSteps("nw_src") \cup FieldStepsT, 2, "pre")
 TheRCases == {}
 TheAround == AroundOne
 ====
